@@ -206,12 +206,20 @@ func runRelay(c *caseIn, o *caseOut) {
 				o.RelayOK++
 				if !bytes.Equal(got, rpayload) {
 					o.fail("relay-payload-intact", fmt.Sprintf(
-						"round %d: datagram % x was still being handled (tunnel being set up) when %d later datagrams arrived; the payload forwarded for it is % x, its DATA bytes are % x",
-						round, d, len(c.Later), got, rpayload))
+						"round %d: datagram %s was still being handled (tunnel being set up) when %d later datagrams arrived; the payload forwarded for it is %s, its DATA bytes are %s",
+						round, short(d), len(c.Later), short(got), short(rpayload)))
 				}
 			case <-time.After(wait):
 				o.Inconcl++
 			}
 		}()
 	}
+}
+
+// short renders long byte strings as length + head
+func short(b []byte) string {
+	if len(b) <= 64 {
+		return fmt.Sprintf("% x", b)
+	}
+	return fmt.Sprintf("[%d bytes] % x ...", len(b), b[:24])
 }
